@@ -947,10 +947,27 @@ func (x *Exec) stringToBytes(st *State, s *Term, ts *types.Slice, to types.Type)
 		x.assume(st, Forall([][2]string{{"i!s2b", SInt}}, body, []*Term{app(SInt, "select", inner, i)}), "string->bytes")
 	}
 	st.heap[key] = Store(h, ref, inner)
+	if st.strSrc == nil {
+		st.strSrc = map[string]*strSrc{}
+	}
+	st.strSrc[ref.s] = &strSrc{s: s, inner: inner}
 	return &Val{K: kSlice, Arr: ref, Off: IntLit(0), Len: n, Cap: n, Typ: to}
 }
 
+// strSrc remembers that a byte array was created as []byte(s), so that string(b[i:j]) of the
+// unmodified array is the corresponding substring of s.
+type strSrc struct {
+	s     *Term
+	inner *Term
+}
+
 func (x *Exec) bytesToString(st *State, v *Val, fs *types.Slice, to types.Type) *Val {
+	if src, ok := st.strSrc[v.Arr.s]; ok && x.inQuant == 0 {
+		cur := Select(x.heapGet(st, "E|"+typeKey(fs.Elem())+"|", SInt), v.Arr)
+		if cur.s == src.inner.s || x.sess.CheckWith(Not(app(SBool, "=", cur, src.inner))) == Unsat {
+			return scalar(x.bind(st, StrSubstr(src.s, v.Off, v.Len), "b2s"), to)
+		}
+	}
 	s := x.freshConst(st, "b2s", SStr)
 	x.assumeStr(st, s)
 	x.assume(st, Eq(StrLen(s), v.Len), "bytes->string len")
